@@ -2,7 +2,7 @@
    Statements only; proofs are in Print/ValueProofs.v, Print/HeapProofs.v, Print/RoundTrip.v. *)
 From HyV Require Import Print.Syntax Print.Names Print.Reader Print.ModelRepr Print.ValueRepr Print.TableOracle
      Print.ReaderFacts Print.StringFacts Print.AtomFacts Print.RoundTrip Print.ValueProofs Print.HeapProofs
-     Print.Ser Print.GenChecks Print.Witness27 Print.Toy.
+     Print.Ser Print.GenChecks Print.Witness27 Print.Toy Print.ReprState.
 
 (* The property as stated, for the model: every value of the documented types is printed as a
    text that the reader takes as one form, and that form evaluates to the value. *)
@@ -46,6 +46,20 @@ Theorem C27_value_printer_is_model_printer :
   forall v, wfv key_eq v -> vrepr W v = mrepr W (vmodel v) /\ ok W (vmodel v).
 Proof. exact value_printer_is_model_printer. Qed.
 Print Assumptions C27_value_printer_is_model_printer.
+
+(* Printing depends only on the value: the state of hy-repr (_quoting, _seen) after ANY call -- returning or
+   raising at any depth, with printers that call hy-repr again on any objects -- is the state before it.  The
+   body of hy-repr is regenerated from hy_repr.hy on every run (Gen/PrintTables.v: hy_repr_body, the sequence
+   of its steps on the state with its try/finally); inv says that _quoting is set while a model is printed. *)
+Theorem C27_repr_state_restored_on_every_exit :
+  forall (ismodel : nat -> bool) o b st, inv ismodel st ->
+  snd (hy_repr_call ismodel hy_repr_body o b st) = st.
+Proof. exact repr_state_restored. Qed.
+Print Assumptions C27_repr_state_restored_on_every_exit.
+
+Theorem C27_repr_idle_after_any_call : forall (ismodel : nat -> bool) o b,
+  snd (hy_repr_call ismodel hy_repr_body o b {| quoting := false; seen := [] |}) = {| quoting := false; seen := [] |}.
+Proof. exact repr_idle_after_any_call. Qed.
 
 (* Refutations of the full statement (witnesses computed in Print/Witness27.v, replayed on the
    implementation by props/c27.py).  W_plain is an oracle under which no token is a number; the two
